@@ -483,7 +483,7 @@ def summarise(records, tier, seed):
         "distinct_nontrivial": len(ag["hashes"]),
         "rule": "option vectors for ode2py / ode2c / convert / cellml2ode on 3 models + 1-2 CellML files: every option alone and in combinations where ignoring it changes the API output (scheme lists incl. "
         "repeated and deprecated names, -s, --delta, --remove-unused, -f, -b, -o with and without suffix and sub-directory, --to, -v, --jax, -c file and pyproject.toml overriding the command line); invalid-input half: "
-        "8 fault classes + missing file x 3 commands, unknown scheme/backend/format values; each run is `python -m gotranx` in a fresh scratch directory under strace; evaluation = one CLI run; "
+        "8 fault classes + missing file x 3 commands, unknown scheme/backend/format values; each run is `python -m gotranx` in a fresh scratch directory under strace; class edit_and_rerun_in_one_process drives the typer application five times from one interpreter (convert, edit the file, convert, invalid file, repaired file) and compares each output with the API text for the file as it is on disk at that step; every requested scheme name must be defined in the written file (independent of the API text); evaluation = one CLI run; "
         "non-trivial = the run reached its verdict (bytes vs API / exit status + files opened for writing); distinct by option vector",
         "exhaustive": True,
         "samples": C.pick_samples(records, 6),
